@@ -20,7 +20,7 @@ RULE = ('scalar conversions: log-uniform arguments; fixed-sampling routes: rando
         'given as tuple / list / ndarray / left at the default, '
         'requested spacing 0.31..1.7 x the FFT spacing, shifts 0 / integer / fractional output samples on either axis, '
         'methods mdft and czt, both directions; FFT route: Q in {1,2,3,1.5,2.37}; spot predicates: flat pupils with '
-        'k in {0,+-1,+-2.5,3,-1.75} waves of tilt on either axis. A case is non-trivial unless the array is 1x1 or '
+        'k in {0,+-1,+-2.5,3,-1.75} waves of tilt on either axis; route chains on Wavefront objects (focus(Q).unfocus(1) and back, FFT route against the fixed-sampling route asked for the reported dx and shape, focus(Q) -> unfocus_fixed_sampling(original dx, shape), fixed sampling on the complete FFT grid -> unfocus(1); both directions, both methods, every dtype/layout, 1-sample axes); coordinate grids (make_xy_grid with dx, with diameter, as vectors, int shape; RichData.x/.y in either access order; Wavefront.intensity/.phase). A case is non-trivial unless the array is 1x1 or '
         'the tilt and shift are all zero; distinct = distinct (item, input) tuples')
 ASSUMPTIONS = ['cases whose shift is handed over as a float32 ndarray are compared at 2e-4 (NumPy divides a float32 array by '
                'output_dx in float32: the precision of the argument the user chose), all others at 1e-9',
@@ -336,14 +336,182 @@ def pred_tilt_unfocus_fft(c, axis1_only=False):
     return None
 
 
-PREDS = {'ffs': pred_pure, 'ufs': pred_pure, 'fft_focus': pred_pure, 'fft_unfocus': pred_pure, 'conv': pred_conv, 'spot_fixed': pred_spot_fixed, 'spot_fft': pred_spot_fft, 'phys_fixed': pred_phys_fixed,
+def _pad_ref(f, shape):
+    """zero-pad with the origin sample (i//2) of every axis on the origin sample of the output"""
+    out = np.zeros(shape, dtype=complex)
+    m, n = f.shape
+    b0, b1 = shape[0] // 2 - m // 2, shape[1] // 2 - n // 2
+    out[b0:b0 + m, b1:b1 + n] = f
+    return out
+
+
+def pred_chain(c, axis1_only=False):
+    """chains of routes on Wavefront objects (the spacing one route REPORTS is what the next one ACCEPTS):
+    fft-fft     focus(Q).unfocus(1) / unfocus(Q).focus(1): spacing, space and (padded) field come back
+    fft-fixed   focus(Q) against focus_fixed_sampling(dx = the reported dx, samples = the padded shape): the same array
+                (same for unfocus / unfocus_fixed_sampling)
+    fft-ufs     focus(Q) then unfocus_fixed_sampling(original dx, original shape): the original field
+    ffs-fft     focus_fixed_sampling on the complete N x N FFT grid then unfocus(1): the padded original field, original dx
+    A non-square padded array is the known finding (one dx for two spacings): then only row Mp//2 (eta = 0) is compared for
+    fft-fixed, and fft-ufs is compared through the true per-axis spacings (executor-level per-axis Q) -- see is_known."""
+    pr, ft = _impl()
+    m, n, Q = c['m'], c['n'], c['Q']
+    lam, efl, dx = c['lam'], c['efl'], c['dx']
+    fwd = c['dir'] == 'fwd'
+    f = L.case_field(c)
+    f0 = f.copy()
+    fc = L.as_complex(f)
+    sp_in, sp_out = ('pupil', 'psf') if fwd else ('psf', 'pupil')
+    wf = pr.Wavefront(f, lam, dx, sp_in)
+    go, back = (('focus', 'unfocus') if fwd else ('unfocus', 'focus'))
+    go_fs, back_fs = (('focus_fixed_sampling', 'unfocus_fixed_sampling') if fwd else ('unfocus_fixed_sampling', 'focus_fixed_sampling'))
+    kind = c['chain']
+    if kind in ('fft-fft', 'fft-fixed', 'fft-ufs'):
+        mid = getattr(wf, go)(efl, Q)
+        Mp, Np = mid.data.shape
+        dx_mid = lam * efl / (Np * dx)
+        bad = L.check_wavefront(mid, f'{go}(...)', None, dx_mid, lam, sp_out)
+        if bad:
+            return bad
+        if Mp < m or Np < n:
+            return f'{go}(Q={Q}) returned a {Mp}x{Np} array for a {m}x{n} input'
+        if kind == 'fft-fft':
+            end = getattr(mid, back)(efl, 1)
+            bad = L.check_wavefront(end, f'{go}(Q).{back}(1)', (Mp, Np), dx, lam, sp_in)
+            if bad:
+                return bad
+            err = _relerr(end.data, _pad_ref(fc, (Mp, Np)))
+            if err > TOL:
+                return f'{go}(efl, {Q}).{back}(efl, 1) does not return the zero-padded field (rel. err {err:.3g})'
+        elif kind == 'fft-fixed':
+            fs = getattr(wf, go_fs)(efl, mid.dx, (Mp, Np), method=c['method'])
+            bad = L.check_wavefront(fs, f'{go_fs}(...)', (Mp, Np), dx_mid, lam, sp_out)
+            if bad:
+                return bad
+            # non-square padded array (known finding): the rows at eta = 0 still agree, up to the ratio of the norms
+            # (FFT: 1/sqrt(Mp Np); fixed sampling at one dx for both axes: dx dxo/(lam f) = 1/Np)
+            a, b = (fs.data, mid.data) if not axis1_only else (fs.data[Mp // 2] * np.sqrt(Np / Mp), mid.data[Mp // 2])
+            err = _relerr(a, b)
+            if err > TOL:
+                return (f'{go_fs}(dx = the dx {go}(efl, {Q}) reports, samples = its shape, method={c["method"]}) is not the array '
+                        f'{go} returns (rel. err {err:.3g}{", row eta=0 only" if axis1_only else ""})')
+        else:
+            if axis1_only:
+                # per-axis true spacings through the executor (the Wavefront API has one dx): Q_a = lam efl/(N_a dx_a_mid dx)
+                ex = ft.mdft if c['method'] == 'mdft' else ft.czt
+                inv = (ex.idft2 if c['method'] == 'mdft' else ex.iczt2) if fwd else (ex.dft2 if c['method'] == 'mdft' else ex.czt2)
+                end_data = inv(mid.data, (1.0, 1.0), (m, n))
+            else:
+                end = getattr(mid, back_fs)(efl, dx, (m, n), method=c['method'])
+                bad = L.check_wavefront(end, f'{go}(Q).{back_fs}(...)', (m, n), dx, lam, sp_in)
+                if bad:
+                    return bad
+                end_data = end.data
+            err = _relerr(end_data, fc)
+            if err > TOL:
+                return (f'{go}(efl, {Q}) followed by {back_fs}(efl, original dx, original shape, method={c["method"]}) does not '
+                        f'return the original field (rel. err {err:.3g})')
+    elif kind == 'ffs-fft':
+        N = c['N']
+        dxo = lam * efl / (N * dx)
+        mid = getattr(wf, go_fs)(efl, dxo, N if c.get('sform') == 'int' else (N, N), method=c['method'])
+        bad = L.check_wavefront(mid, f'{go_fs}(...)', (N, N), dxo, lam, sp_out)
+        if bad:
+            return bad
+        end = getattr(mid, back)(efl, 1)
+        bad = L.check_wavefront(end, f'{go_fs}(...).{back}(1)', (N, N), dx, lam, sp_in)
+        if bad:
+            return bad
+        err = _relerr(end.data, _pad_ref(fc, (N, N)))
+        if err > TOL:
+            return (f'{go_fs}(complete {N}x{N} FFT grid, method={c["method"]}) followed by {back}(efl, 1) does not return the '
+                    f'zero-padded field (rel. err {err:.3g})')
+    else:
+        return f'unknown chain {kind}'
+    if f.dtype != f0.dtype or not np.array_equal(f, f0):
+        return 'the input array was modified in place'
+    return None
+
+
+def pred_grid(c):
+    """coordinates attached to data: make_xy_grid(shape, dx=...) / (shape, diameter=...) / RichData.x,.y / Wavefront.x,.y:
+    sample [k,l] sits at ((k - m//2) step, (l - n//2) step), step = dx or diameter / max(shape); x varies along axis 1"""
+    pr, _ = _impl()
+    from prysm.coordinates import make_xy_grid
+    from prysm._richdata import RichData
+    m, n, dx = c['m'], c['n'], c['dx']
+    xr, yr = _cen(n) * dx, _cen(m) * dx
+
+    def cmp(x, y, what, step_ratio=1.0, grid=True):
+        X, Y = np.meshgrid(xr * step_ratio, yr * step_ratio)
+        if not grid:
+            X, Y = xr * step_ratio, yr * step_ratio
+        x, y = np.asarray(x), np.asarray(y)
+        if x.shape != X.shape or y.shape != Y.shape:
+            return f'{what}: x has shape {x.shape}, y has shape {y.shape}; expected {X.shape}, {Y.shape}'
+        if np.abs(x - X).max() > 1e-12 * max(1.0, np.abs(X).max()) or np.abs(y - Y).max() > 1e-12 * max(1.0, np.abs(Y).max()):
+            return f'{what}: sample [k,l] is not at ((k - {m}//2) step, (l - {n}//2) step)'
+        return None
+    kind = c['kind']
+    if kind == 'dx':
+        return cmp(*make_xy_grid((m, n), dx=dx), 'make_xy_grid(shape, dx=dx)')
+    if kind == 'dx-vectors':
+        return cmp(*make_xy_grid((m, n), dx=dx, grid=False), 'make_xy_grid(shape, dx=dx, grid=False)', grid=False)
+    if kind == 'diameter':
+        D = c['D']
+        return cmp(*make_xy_grid((m, n), diameter=D), 'make_xy_grid(shape, diameter=D)', step_ratio=D / max(m, n) / dx)
+    if kind == 'int':
+        x, y = make_xy_grid(m, dx=dx)
+        X, Y = np.meshgrid(_cen(m) * dx, _cen(m) * dx)
+        if x.shape != X.shape or np.abs(x - X).max() > 1e-12 * max(1, np.abs(X).max()) or np.abs(y - Y).max() > 1e-12 * max(1, np.abs(Y).max()):
+            return 'make_xy_grid(int, dx=dx) is not the square grid of that size'
+        return None
+    data = np.zeros((m, n))
+    if kind == 'richdata':
+        rdt = RichData(data, dx, 0.5)
+        bad = cmp(rdt.x, rdt.y, 'RichData.x/.y')
+        if bad is None:
+            rdt2 = RichData(data, dx, 0.5)
+            bad = cmp(rdt2.x, rdt2.y[:], 'RichData.x/.y') or cmp(RichData(data, dx, 0.5).x, RichData(data, dx, 0.5).y, 'RichData.y first')
+            r3 = RichData(data, dx, 0.5)
+            y3 = r3.y          # .y asked for first
+            bad = bad or cmp(r3.x, y3, 'RichData (.y read before .x)')
+        return bad
+    if kind == 'wavefront':
+        wf = pr.Wavefront(data + 1.0, 0.5, dx, c.get('space', 'pupil'))
+        for view in ('intensity', 'phase'):
+            v = getattr(wf, view)
+            bad = cmp(v.x, v.y, f'Wavefront.{view}.x/.y')
+            if bad:
+                return bad
+        return None
+    return f'unknown grid kind {kind}'
+
+
+def pred_tilt(c):
+    """the pupil `Wavefront.from_amp_and_phase` builds from an OPD of k waves across the aperture is the tilt
+    exp(2 pi i (kx (i - n//2)/n + ky (j - m//2)/m))"""
+    pr, _ = _impl()
+    m, n = c['m'], c['n']
+    wf = tilted_pupil(pr, m, n, c['dx'], c['lam'], c['ky'], c['kx'])
+    ref = np.exp(2j * np.pi * (np.outer(c['ky'] * _cen(m) / m, np.ones(n)) + np.outer(np.ones(m), c['kx'] * _cen(n) / n)))
+    err = _relerr(wf.data, ref)
+    if err > TOL:
+        return f'from_amp_and_phase pupil is not the ({c["kx"]},{c["ky"]})-wave tilt (rel. err {err:.3g})'
+    return None
+
+
+PREDS = {'phys_vs_model': pred_phys_fixed, 'ffs': pred_pure, 'ufs': pred_pure, 'fft_focus': pred_pure, 'fft_unfocus': pred_pure, 'conv': pred_conv, 'spot_fixed': pred_spot_fixed, 'spot_fft': pred_spot_fft, 'phys_fixed': pred_phys_fixed,
          'shift_fixed': pred_shift_fixed, 'tilt_unfocus_fixed': pred_tilt_unfocus_fixed,
-         'tilt_unfocus_fft': pred_tilt_unfocus_fft}
+         'tilt_unfocus_fft': pred_tilt_unfocus_fft, 'chain': pred_chain, 'grid': pred_grid, 'tilt_vs_model': pred_tilt}
 
 
 def is_known(item, c):
     """the listed known finding: FFT route whose padded array is not square (one dx reported for two different spacings)"""
     if item in ('spot_fft', 'tilt_unfocus_fft'):
+        Mp, Np = fft_padded_shape(c)
+        return Mp != Np
+    if item == 'chain' and c['chain'] in ('fft-fixed', 'fft-ufs'):
         Mp, Np = fft_padded_shape(c)
         return Mp != Np
     return False
@@ -456,6 +624,29 @@ def gen_tilt_unfocus(rng, hi, i, fft):
             'method': 'czt' if i % 2 else 'mdft'}
 
 
+def gen_chain(rng, hi, i):
+    m, n = _shape(rng, hi, 1 if i % 7 == 0 else 2)
+    if rng.integers(3) == 0:
+        n = m
+    lam, efl, dx = _optics(rng)
+    dtype, layout = L.draw_kind(rng)
+    kind = ('fft-fft', 'fft-fixed', 'fft-ufs', 'ffs-fft')[i % 4]
+    c = {'chain': kind, 'dir': 'fwd' if (i // 4) % 2 == 0 else 'inv', 'm': m, 'n': n, 'Q': QS[int(rng.integers(len(QS)))],
+         'lam': lam, 'efl': efl, 'dx': dx * (1 if (i // 4) % 2 == 0 else 10), 'method': 'czt' if int(rng.integers(2)) else 'mdft',
+         'seed': int(rng.integers(1 << 30)), 'dtype': dtype, 'layout': layout}
+    if kind == 'ffs-fft':
+        c['N'] = max(m, n) + int(rng.integers(0, 6))
+        c['sform'] = 'int' if rng.integers(2) else 'tuple'
+    return c
+
+
+def gen_grid(rng, hi, i):
+    m, n = _shape(rng, hi + 4, 1)
+    kinds = ('dx', 'dx-vectors', 'diameter', 'int', 'richdata', 'wavefront')
+    return {'kind': kinds[i % len(kinds)], 'm': m, 'n': n, 'dx': float(np.exp(rng.uniform(-3, 3))), 'D': float(np.exp(rng.uniform(-2, 4))),
+            'space': 'psf' if rng.integers(2) else 'pupil'}
+
+
 def _nontrivial_spot(c):
     return (c['m'] > 1 and c['n'] > 1) and (c['ky'] != 0 or c['kx'] != 0 or any(c.get('shift', [0, 0])))
 
@@ -545,6 +736,34 @@ def correspondence(ctx):
         nums = [C.f2w(v) for v in (c['dx'], c['efl'], c['lam'], c['dxo'], sx, sy)]
         lines.append(' '.join(head + nums + _wire_field(L.as_complex(f))))
         meta.append(('fspt', (c, f, sx, sy, k, l)))
+    # the physical integral Model.C03.F2 and the tilt Model.C03.tilt THEMSELVES (the subjects of the spot / tilt theorems), against
+    # the real code at the coordinates the real code reports
+    for i in range(ctx.scale(40, 150)):
+        c = gen_fixed(rng, min(hi, 10), i, 'fwd' if i % 2 else 'inv', lo=1)
+        c['api'], c['sform'], c['hform'] = 'wrapper', 'tuple', 'tuple'
+        f = L.case_field(c)
+        sx, sy = L.eff_shift(c, c['dxo'])
+        fwd = c['dir'] == 'fwd'
+        try:
+            wf = pr.Wavefront(f, c['lam'], c['dx'], 'pupil' if fwd else 'psf')
+            out = (wf.focus_fixed_sampling if fwd else wf.unfocus_fixed_sampling)(c['efl'], c['dxo'], (c['M'], c['N']),
+                                                                                  shift=(sx, sy), method=c['method'])
+            I = out.intensity
+            k, l = int(rng.integers(c['M'])), int(rng.integers(c['N']))
+            eta, xi = float(I.y[k, 0]) - sy, float(I.x[0, l]) - sx
+            val = complex(out.data[k, l])
+        except Exception as ex:
+            ctx.case('phys_vs_model', c, nontrivial=c['m'] * c['n'] > 1, tag='raised')
+            ctx.disagree('phys_vs_model', c, f'raised {type(ex).__name__}: {ex}', 'model returns a value')
+            continue
+        lines.append(' '.join(['F2', c['dir'], str(c['m']), str(c['n'])] + [C.f2w(v) for v in (c['dx'], c['lam'], c['efl'], eta, xi)]
+                              + _wire_field(L.as_complex(f))))
+        meta.append(('F2', (c, k, l, val, float(np.abs(out.data).max()))))
+    for i in range(ctx.scale(30, 100)):
+        c = gen_spot_fixed(rng, hi, i)
+        for ax, (size, kk) in enumerate(((c['m'], c['ky']), (c['n'], c['kx']))):
+            lines.append(f"tilt {size} {C.f2w(float(kk))}")
+            meta.append(('tilt', (c, ax)))
     replies = C.lean_driver('C03', lines)
 
     # ---------------- compare
@@ -603,6 +822,33 @@ def correspondence(ctx):
                 k, l = np.unravel_index(np.argmax(np.abs(a - b)), out.shape)
                 ctx.disagree(item, c, f'out[{k},{l}]={complex(out[k, l]):.6g}', f'{complex(mod[k, l]):.6g} (rel. err {err:.3g})')
             continue
+        if kind == 'F2':
+            c, k, l, val, scale = dat
+            ctx.case('phys_vs_model', dict(c, point=[k, l]), nontrivial=c['m'] * c['n'] > 1,
+                     tag=f"{c['dir']}/{c['method']}/{'shift' if any(c['shift']) else 'noshift'}/{'sq' if c['m'] == c['n'] else 'nonsq'}")
+            re, im = rep.split()
+            mod = (c['dx'] * c['dxo'] / (c['lam'] * c['efl'])) * (C.w2f(re) + 1j * C.w2f(im))
+            d = abs(val - mod) if not any(c['shift']) else abs(abs(val) - abs(mod))
+            if d > TOL * max(1.0, scale):
+                ctx.disagree('phys_vs_model', c, f'out[{k},{l}] = {val:.6g}', f'norm * Model.C03.F2 at the reported coordinates = {mod:.6g}')
+            continue
+        if kind == 'tilt':
+            c, ax = dat
+            size = c['m'] if ax == 0 else c['n']
+            case = {'m': c['m'], 'n': c['n'], 'dx': c['dx'], 'lam': c['lam'], 'ky': c['ky'], 'kx': c['kx']}
+            ctx.case('tilt_vs_model', dict(case, axis=ax), nontrivial=size > 1 and (c['ky'], c['kx'])[ax] != 0,
+                     tag=f"axis{ax}/{'frac' if (c['ky'], c['kx'])[ax] % 1 else 'int'}")
+            mod = _unwire_field(rep.split(), (size,)) if size else np.zeros(0)
+            try:
+                wf = tilted_pupil(pr, c['m'], c['n'], c['dx'], c['lam'], c['ky'], c['kx'])
+                # along the axis, through the origin sample of the other axis (where the other tilt's phase is zero)
+                got = wf.data[:, c['n'] // 2] if ax == 0 else wf.data[c['m'] // 2, :]
+            except Exception as ex:
+                ctx.disagree('tilt_vs_model', case, f'raised {type(ex).__name__}: {ex}', 'model returns a tilt')
+                continue
+            if got.shape != mod.shape or _relerr(got, mod) > TOL:
+                ctx.disagree('tilt_vs_model', case, 'pupil built by from_amp_and_phase', 'Model.C03.tilt', note=f'axis {ax}')
+            continue
         if kind == 'fft':
             c, f, out = dat
             item = 'fft_focus' if c['dir'] == 'fwd' else 'fft_unfocus'
@@ -654,6 +900,14 @@ def correspondence(ctx):
         c = gen_tilt_unfocus(rng, hi, i, fft=True)
         Mp, Np = fft_padded_shape(c)
         run('tilt_unfocus_fft', c, any(c['pos']), tag=f"Q{c['Q']}/{'sq' if Mp == Np else 'nonsq-known'}")
+    for i in range(n_pred // 2):
+        c = gen_chain(rng, hi, i)
+        Mp, Np = fft_padded_shape(c) if c['chain'] != 'ffs-fft' else (c['N'], c['N'])
+        run('chain', c, c['m'] * c['n'] > 1,
+            tag=f"{c['chain']}/{c['dir']}/{c['method'] if c['chain'] != 'fft-fft' else '-'}/{'sq' if Mp == Np else 'nonsq'}/Q{c['Q'] if c['chain'] != 'ffs-fft' else '-'}")
+    for i in range(n_pred // 4):
+        c = gen_grid(rng, hi, i)
+        run('grid', c, c['m'] * c['n'] > 1, tag=f"{c['kind']}/{'sq' if c['m'] == c['n'] else 'nonsq'}/par{c['m'] % 2}{c['n'] % 2}")
 
 
 # ------------------------------------------------------------------------------------------------
@@ -689,6 +943,18 @@ def _small_scope():
                 yield 'spot_fft', {'m': m, 'n': n, 'Q': Q, 'lam': lam, 'efl': efl, 'dx': dx, 'ky': ky, 'kx': kx}
             for pos in ((0, 0), (0, 1), (1, 0), (-1, 1), (-2, -1)):
                 yield 'tilt_unfocus_fft', {'m': m, 'n': n, 'Q': Q, 'lam': lam, 'efl': efl, 'dx': 5.0, 'pos': list(pos)}
+            for direction in ('fwd', 'inv'):
+                for kind in ('fft-fft', 'fft-fixed', 'fft-ufs', 'ffs-fft'):
+                    for method in (('mdft', 'czt') if kind != 'fft-fft' else ('mdft',)):
+                        c = {'chain': kind, 'dir': direction, 'm': m, 'n': n, 'Q': Q, 'lam': lam, 'efl': efl,
+                             'dx': dx if direction == 'fwd' else 5.0, 'method': method, 'seed': 11}
+                        if kind == 'ffs-fft':
+                            if Q != 1:
+                                continue
+                            c['N'] = max(m, n) + 1
+                        yield 'chain', c
+        for kind in ('dx', 'dx-vectors', 'diameter', 'int', 'richdata', 'wavefront'):
+            yield 'grid', {'kind': kind, 'm': m, 'n': n, 'dx': 0.25, 'D': 3.0}
         for method in ('mdft', 'czt'):
             for direction in ('fwd', 'inv'):
                 for sh in ((0, 0), (1, -2), (0.5, 1.25)):
@@ -718,6 +984,14 @@ def _small_scope():
 
 
 def search(ctx, hints):
+    # a case on which the correspondence saw the real code disagree with the model (or raise): evaluate the property's own
+    # predicate for that item on exactly that input first
+    for dg in (hints or {}).get('disagreements', [])[:50]:
+        case = {k: v for k, v in dg['case'].items() if k != 'point'} if isinstance(dg.get('case'), dict) else None
+        if case is not None and dg.get('item') in PREDS:
+            d = eval_pred(dg['item'], case)
+            if d is not None:
+                return {'item': dg['item'], 'input': case, 'detail': d}
     for c in _corpus():
         d = eval_pred(c['item'], c['input'])
         if d is not None:
@@ -731,7 +1005,8 @@ def search(ctx, hints):
         for item, c in (('spot_fixed', gen_spot_fixed(rng, 10, i)), ('spot_fft', gen_spot_fft(rng, 10, i)),
                         ('phys_fixed', gen_fixed(rng, 10, i, 'fwd' if i % 2 else 'inv')),
                         ('tilt_unfocus_fixed', gen_tilt_unfocus(rng, 10, i, False)),
-                        ('tilt_unfocus_fft', gen_tilt_unfocus(rng, 10, i, True))):
+                        ('tilt_unfocus_fft', gen_tilt_unfocus(rng, 10, i, True)), ('chain', gen_chain(rng, 10, i)),
+                        ('grid', gen_grid(rng, 10, i))):
             d = eval_pred(item, c)
             if d is not None:
                 return {'item': item, 'input': c, 'detail': d}
@@ -768,7 +1043,7 @@ MANIFEST_ENTRY = {
              'shift pairs, equal the model fixedSampling sample for sample (so the two methods are one function), and the array '
              'the Lean driver prints is that model; every element of the model is norm * unit phase * the 2-D physical focusing '
              'integral at ((k-M//2) dx_out - shift_y, (l-N//2) dx_out - shift_x), also written in the reported coordinates '
-             'fftrange(N)[l]*dx; tilt theorem (k waves across D move the focal field by exactly k lambda z/D, any real k) and spot '
+             'fftrange(N)[l]*dx; the routes agree at the same physical place: a fixed-sampling sample (any requested dx, shift, generated Q/shift) and an FFT-route sample (as written: pad, rotate, DFT, rotate back) with the same physical coordinate are equal up to the unit phase of the shift, and focus_fixed_sampling asked for the reported FFT spacing and the padded length IS the FFT route sample for sample (both directions), and in 2-D with the norms of both routes (routes_agree_2d: x through the reported spacing, y through the true axis-0 spacing); the reported FFT spacing requested as output_dx makes both generated kernel constants 1/N1; focus(Q).unfocus(1) and unfocus(Q).focus(1) report the spacing they started from for every padded shape; the coordinate RichData.x/.y report, as translated (make_xy_grid step incl. the diameter branch, coordinate = fftrange value * step, which shape index feeds x / y, along which array axis each varies, unpack order), is (l - N//2) dx; tilt theorem (k waves across D move the focal field by exactly k lambda z/D, any real k) and spot '
              'location on both axes at once; a point source unfocuses to the corresponding 2-D tilt; p more output samples of '
              'shift (p any integer, either axis, either direction) translate the result by exactly p samples; FFT route: the '
              'transform / rotation names read off the source of focus and unfocus give the centred DFT (every length), which '
@@ -776,11 +1051,11 @@ MANIFEST_ENTRY = {
              'route, and in 2-D with the ortho norm and the pad offset of the source the y coordinate is (k-M//2) times the TRUE '
              'axis-0 spacing, equal to the reported one iff the padded array is square (exact characterisation of the known '
              'finding); for a flat tilted pupil and the actual kernel exp(-2 pi i t) the continuous |F| is maximal at k lambda f/D. '
-             'TRANSLATED from the current source each run (28 items): the three scalar conversions; the Q/shift/int-samples/'
+             'TRANSLATED from the current source each run (29 items): the three scalar conversions; the Q/shift/int-samples/'
              'default-shift/return-value glue of both fixed-sampling functions by symbolic execution (both method branches must '
              'receive the same arguments, the transform result must be returned untouched); which shape[k] feeds the dx of '
              'Wavefront.focus/unfocus and what they return; argument wiring, int broadcast and returned container of the Wavefront '
-             'wrappers; transform and rotation names of the FFT one-liners; fftrange bounds; and the engine glue of fttools.py '
+             'wrappers; transform and rotation names of the FFT one-liners; fftrange bounds; make_xy_grid / RichData.x,.y arithmetic (step, coordinate, axis assignment); and the engine glue of fttools.py '
              '(the items of tools/gen_c01.py re-emitted into Generated.C03). RECOGNISERS only (Bool facts, no arithmetic): '
              'spaces of returned Wavefronts, norm=ortho, make_xy_grid / RichData.x,.y / Wavefront.intensity carrying shape and dx. '
              'MODELLED AND COMPARED (not proved): that numpy/scipy execute the sums of the model (complex values at 1e-9 on fields '
@@ -788,7 +1063,7 @@ MANIFEST_ENTRY = {
              'spelling of sample counts and shifts, both methods and directions, purity of every call) and the property predicates '
              'on the real outputs (analytic pattern of a tilted aperture and direct physical integral at the REPORTED coordinates, '
              'complex at zero shift; brightest sample nearest to k lambda f/D; exact translation by shifts; spot -> tilt; dx, '
-             'wavelength, space and shape of every returned Wavefront). PARTIAL: FFT-route y-coordinate claims are restricted to '
+             'wavelength, space and shape of every returned Wavefront; route chains returning the padded / original field and the original dx, FFT route == fixed-sampling route at the reported dx; coordinate grids sample by sample; the Lean definitions the spot / tilt theorems are ABOUT are executed too: Model.C03.F2 (physical integral) at the coordinates the real result reports against the real array element, Model.C03.tilt against the pupil Wavefront.from_amp_and_phase builds). PARTIAL: FFT-route y-coordinate claims are restricted to '
              'square padded arrays (known finding fft-nonsquare-dx); the phase of a SHIFTED single transform is left free (moduli '
              'compared), its consistency between the legs is C05; "brightest array sample" is checked, only the continuous '
              'maximum is proved.'),
